@@ -172,6 +172,7 @@ impl ModelW {
                 o.f("some", p.is_some());
                 if let Some(p) = p {
                     o.b("enc", &p.encode());
+                    o.f("repr_ok", true);
                 }
             }
             Step::MEq { a, b } => {
@@ -624,6 +625,8 @@ impl RealW {
                 o.f("some", p.is_some());
                 if let Some(p) = p {
                     o.b("enc", p.compress().as_bytes());
+                    // whatever comes back must be a point of the curve in a consistent representation
+                    o.f("repr_ok", refmodel::ed::check_extended(&curve25519_dalek::verif_hooks::edwards_coords(&p)).is_ok());
                 }
             }
             Step::MEq { a, b } => {
